@@ -4,4 +4,5 @@ CONSTANTS
   Amount = 4
   CloseFirst = FALSE
   ReadPipeFix = TRUE
+  ErrPipeFix = TRUE
 INVARIANT Reaped
